@@ -110,6 +110,9 @@ FUN = {
     'I': lambda n: I(n), 'unI': lambda v: v[1] if v[0] == 'int' else 0,
     'Bx': lambda b: B(b), 'unB': lambda v: v[1] if v[0] == 'bool' else False,
     'cls': lambda v: 0,
+    'alen': lambda v: len(v[1]) if v[0] in ('seq', 'map', 'set', 'str') else 0,
+    'truth': lambda v: (v[1] if v[0] == 'bool' else v[1] != 0 if v[0] == 'int' else len(v[1]) > 0 if v[0] in ('seq', 'map', 'set', 'str')
+                        else False if v[0] == 'none' else True),
     'len': lambda s: len(seq(s)),
     'at': f_at,
     'mem': lambda s, x: x in seq(s),
